@@ -25,6 +25,16 @@
    by such a test; or its arguments mention such a value (rng.spawn(nthreads)).  A truth-value test of seed material
    (`if not seed`, `seed or default`) inside a function that takes randomness is reported as Global: 0 and the empty
    sequence are valid seeds.
+   State kept between calls (added after seed C11-8 was missed).  A function that takes randomness and is not a
+   constructor must not store anything on a seed carrier -- `self` when the object carries seed material (the method
+   reads self.rng / self.seed / self._rng_factory: TrainingOptions, hold-outs, rankers, generator factories) or the
+   randomness parameter itself (options, context, rng, seed ...): attribute / item assignment or deletion,
+   object.__setattr__ / setattr / delattr, __dict__ / vars() updates; nor memoise its result (functools cache
+   decorators), nor park a value built from its randomness in a module-level name or container.  Each is reported as
+   Global "state-kept-...": what a later call then sees is not a function of (seed, inputs, call sequence of that
+   operation) but of everything that used the same object before.  TrainingOptions.random_generator is judged like
+   any other function (it is no longer one of the hand-modelled primitives) and its class gives the generated
+   `training_options_plan` (3).
    A local name is "derived from the caller's randomness" if it is assigned from an expression that
    mentions a derived name (rng = random_generator(rng); seed = SeedSequence(options.rng);
    c_opts = replace(options, rng=seed.spawn(1)[0]); train_ctx = self.prepare_context(options); ...), or if
@@ -37,6 +47,11 @@
    the three stochastic rankers (scoring assigns no attribute; the generator comes from the factory
    called with the query), the three fork/join loops (fixed-size chunks in index order, joined in the
    same order).
+
+3. training_options_plan: FreshPerCall when no method of TrainingOptions other than a constructor stores on `self`,
+   is memoised, or parks randomness in a module-level name (every random_generator() call then builds its generator from
+   the seed alone); otherwise Memoised.  Model/C11_seeds.v:train_all runs a sequence of trainings against ONE options
+   object under either plan.
 """
 
 from __future__ import annotations
@@ -59,7 +74,11 @@ RAND_PARAMS = ["rng", "options", "context", "generator", "seed", "random_state",
 SELF_RAND = {"rng", "_rng_factory", "seed"}
 PRIMITIVES = {"random_generator", "set_global_rng", "derivable_rng", "make_seed", "load_seed", "_bytes_seed",
               "DerivingRNG.__call__", "DerivingRNG.__init__", "FixedRNG.__call__", "FixedRNG.__init__",
-              "TrainingOptions.random_generator", "RNGFactory.__call__"}
+              "RNGFactory.__call__"}
+CONSTRUCTORS = {"__init__", "__post_init__", "__new__", "__setstate__", "__init_subclass__"}
+MEMO_DECORATORS = {"cache", "lru_cache", "cached_property", "functools.cache", "functools.lru_cache", "functools.cached_property"}
+PER_CALL_OBJECTS = {"context"}      # the per-training context object is built by prepare_context inside the training
+SETATTR_CALLS = {"object.__setattr__", "object.__delattr__", "setattr", "delattr"}
 # library entry points that consume randomness: name -> keyword that must carry it
 LIB = {"TruncatedSVD": "random_state", "nn.init.normal_": "generator", "torch.randn": "generator", "torch.rand": "generator",
        "torch.randperm": "generator", "torch.randint": "generator", "torch.normal": "generator",
@@ -265,6 +284,116 @@ def control_conditions(fn_node, amb_names):
                 tag(st, here)
     block(fn_node.body, None)
     return cond_of
+
+
+def root_name(e):
+    """The name at the root of an attribute / subscript / call chain (self.a[0].b -> self; vars(self) -> self)."""
+    while True:
+        if isinstance(e, ast.Name):
+            return e.id
+        if isinstance(e, (ast.Attribute, ast.Subscript, ast.Starred)):
+            e = e.value
+        elif isinstance(e, ast.Call) and dotted(e.func) == "vars" and e.args:
+            e = e.args[0]
+        else:
+            return None
+
+
+def local_names(fn_node) -> set[str]:
+    """Parameters and plain names bound inside the function (not declared global / nonlocal)."""
+    a = fn_node.args
+    out = {x.arg for x in a.posonlyargs + a.args + a.kwonlyargs}
+    for extra in (a.vararg, a.kwarg):
+        if extra is not None:
+            out.add(extra.arg)
+    outer = set()
+    for x in ast.walk(fn_node):
+        if isinstance(x, (ast.Global, ast.Nonlocal)):
+            outer |= set(x.names)
+        elif isinstance(x, ast.Name) and isinstance(x.ctx, (ast.Store, ast.Del)):
+            out.add(x.id)
+        elif isinstance(x, (ast.Import, ast.ImportFrom)):
+            out |= {(al.asname or al.name).split(".")[0] for al in x.names}
+        elif isinstance(x, (ast.FunctionDef, ast.AsyncFunctionDef, ast.ClassDef)) and x is not fn_node:
+            out.add(x.name)
+    return out - outer
+
+
+def state_stores(fn: "Fn", derived: set[str]):
+    """(what, line) for everything the function keeps beyond its own call on a seed carrier or in module state."""
+    node = fn.node
+    found = []
+    for d in node.decorator_list:
+        dd = dotted(d.func if isinstance(d, ast.Call) else d)
+        if dd in MEMO_DECORATORS:
+            found.append((f"state-kept-by-memoisation:{dd}", d.lineno))
+    if node.name in CONSTRUCTORS:
+        return found
+    carriers = set(fn.rand_params) - PER_CALL_OBJECTS
+    if fn.cls and fn.self_rand:
+        carriers.add("self")
+    locs = local_names(node)
+    outer = {n for x in ast.walk(node) if isinstance(x, (ast.Global, ast.Nonlocal)) for n in x.names}
+
+    def value_of(target_holder):
+        return getattr(target_holder, "value", None)
+
+    # attribute / item stores and deletions
+    for x in ast.walk(node):
+        tgts, val = [], None
+        if isinstance(x, ast.Assign):
+            tgts, val = x.targets, x.value
+        elif isinstance(x, (ast.AugAssign, ast.AnnAssign, ast.NamedExpr)):
+            tgts, val = [x.target], x.value
+        elif isinstance(x, ast.Delete):
+            tgts = x.targets
+        elif isinstance(x, (ast.For, ast.AsyncFor, ast.comprehension)):
+            tgts, val = [x.target], x.iter
+        elif isinstance(x, ast.withitem) and x.optional_vars is not None:
+            tgts, val = [x.optional_vars], x.context_expr
+        flat = []
+        for t in tgts:
+            flat += list(t.elts) if isinstance(t, (ast.Tuple, ast.List)) else [t]
+        for t in flat:
+            if isinstance(t, (ast.Attribute, ast.Subscript)):
+                r = root_name(t)
+                if r in carriers:
+                    found.append((f"state-kept-on-seed-carrier:{ast.unparse(t)}", t.lineno))
+                elif r is not None and r not in locs and val is not None and mentions(val, derived):
+                    found.append((f"state-kept-in-module-state:{ast.unparse(t)}", t.lineno))
+            elif isinstance(t, ast.Name) and t.id in outer and val is not None and mentions(val, derived):
+                found.append((f"state-kept-in-module-state:{t.id}", t.lineno))
+    # the same through calls
+    for x in ast.walk(node):
+        if not isinstance(x, ast.Call):
+            continue
+        d = dotted(x.func)
+        args = list(x.args) + [k.value for k in x.keywords]
+        if d in SETATTR_CALLS and x.args:
+            r = root_name(x.args[0])
+            if r in carriers:
+                what = ast.unparse(x.args[1]).strip("'\"") if len(x.args) > 1 else "?"
+                found.append((f"state-kept-on-seed-carrier:{ast.unparse(x.args[0])}.{what}", x.lineno))
+        elif isinstance(x.func, ast.Attribute) and x.func.attr in ("__setattr__", "__delattr__", "__setitem__", "__delitem__"):
+            r = root_name(x.func.value)
+            if r in carriers:
+                found.append((f"state-kept-on-seed-carrier:{ast.unparse(x.func.value)}.{x.func.attr}", x.lineno))
+        elif isinstance(x.func, ast.Attribute) and x.func.attr in ("update", "setdefault", "append", "add", "extend", "insert", "pop", "clear"):
+            recv = x.func.value
+            r = root_name(recv)
+            through_dict = any(isinstance(y, ast.Attribute) and y.attr == "__dict__" for y in ast.walk(recv)) or \
+                any(isinstance(y, ast.Call) and dotted(y.func) == "vars" for y in ast.walk(recv))
+            if r in carriers and (through_dict or (r == "self" and isinstance(recv, ast.Attribute))):
+                found.append((f"state-kept-on-seed-carrier:{ast.unparse(recv)}.{x.func.attr}", x.lineno))
+            elif r is not None and r not in locs and r not in carriers and isinstance(recv, ast.Name) and any(mentions(a, derived) for a in args) \
+                    and x.func.attr in ("update", "setdefault", "append", "add", "extend", "insert"):
+                found.append((f"state-kept-in-module-state:{ast.unparse(recv)}.{x.func.attr}", x.lineno))
+    seen, out = set(), []
+    for w, ln in sorted(found, key=lambda t: (t[1], t[0])):
+        if (w, ln) not in seen:
+            seen.add((w, ln))
+            out.append((w, ln))
+    return out
 
 
 def analyse(fn: Fn, by_simple: dict[str, list[Fn]]):
@@ -504,7 +633,9 @@ def analyse(fn: Fn, by_simple: dict[str, list[Fn]]):
             if it is not None and (isinstance(it, (ast.Set, ast.SetComp)) or
                                    (isinstance(it, ast.Call) and dotted(it.func) in ("set", "frozenset"))):
                 out.append(("Global", "process-dependent:set-order", getattr(it, "lineno", 0)))
-    # attribute reads of np.random.<global state> that are not calls
+        # state kept between calls on the seed carrier, by memoisation or in module state
+        for w, ln in state_stores(fn, derived):
+            out.append(("Global", w, ln))
     return out, sorted(derived)
 
 
@@ -669,6 +800,22 @@ def shape_fanout(src):
     return out
 
 
+def shape_options(src):
+    """TrainingOptions: which plan random_generator() follows when ONE options object serves several trainings."""
+    tree = ast.parse((src / "lenskit/training.py").read_text())
+    cls = [n for n in tree.body if isinstance(n, ast.ClassDef) and n.name == "TrainingOptions"]
+    if len(cls) != 1:
+        raise TranslateError("class TrainingOptions not found exactly once")
+    find(tree, "TrainingOptions", "random_generator")
+    reasons = []
+    for m in cls[0].body:
+        if isinstance(m, (ast.FunctionDef, ast.AsyncFunctionDef)):
+            fn = Fn("lenskit/training.py", "TrainingOptions", m)
+            fn.self_rand = fn.self_rand or ["rng"]          # the options object is the seed carrier in every method
+            reasons += [f"{m.name}: {w} (line {ln})" for w, ln in state_stores(fn, {"self", "self.rng"} | set(fn.rand_params))]
+    return ("Memoised" if reasons else "FreshPerCall"), reasons
+
+
 def const_int(e):
     """Value of an integer constant expression (literals combined with << ** * + -), else None."""
     if isinstance(e, ast.Constant) and isinstance(e.value, int) and not isinstance(e.value, bool):
@@ -726,7 +873,7 @@ def size_thresholds(src: Path, low=1 << 12, high=1 << 26) -> list[int]:
 
 def extract(src: Path) -> dict:
     return {"graph": graph(src), "random_generator": shape_random_generator(src), "deriving": shape_deriving(src),
-            "rankers": shape_rankers(src), "fanout": shape_fanout(src)}
+            "rankers": shape_rankers(src), "fanout": shape_fanout(src), "options": shape_options(src)}
 
 
 HEADER = """(* GENERATED on every run by harness/translate/c11.py from src/lenskit -- do not edit.
@@ -780,6 +927,11 @@ def to_gallina(info) -> str:
     out.append(f"Definition deriving_shape_ok : bool := {'true' if info['deriving'] else 'false'}.\n")
     out.append("(* DerivingRNG.__call__: anonymous -> spawn (stateful), identified -> make_seed(base, user) (stateless) *)\n")
     out.append("Definition deriving_plan (has_user : bool) : derive_plan := if has_user then DeriveFromUser else SpawnNext.\n\n")
+    plan, why = info["options"]
+    out.append("(* TrainingOptions.random_generator(): FreshPerCall = every call builds a generator from the seed alone, nothing is kept on\n"
+               "   the options object; Memoised = some method of TrainingOptions keeps state on the object"
+               + ("".join("\n   - " + w.replace("(*", "( *").replace("*)", "* )") for w in why)) + " *)\n")
+    out.append(f"Definition training_options_plan : opt_plan := {plan}.\n\n")
     out.append("Definition stateless_rankers : list string := [" + "; ".join(cs(c) for c in info["rankers"]) + "].\n")
     out.append("Definition fanout_loops : list (string * join_kind) := ["
                + "; ".join(f"({cs(n)}, {'JScatter' if k == 'scatter' else 'JConcat'})" for n, k in info["fanout"]) + "].\n")
